@@ -69,7 +69,7 @@ def eval_forward(case, rec):
     key = ('fwd', cipher, tuple(kinds), spec['comp'], body_class(len(body)), spec['fmt'], len(spec['signers']))
     nontrivial = len(recips) >= 2 or cipher != 9 or spec['comp'] != 1 or len(body) > 16
     rec.case(key, nontrivial, ['dir/fwd', 'cipher/%d' % cipher, 'comp/%d' % spec['comp'], 'body/' + body_class(len(body)),
-                               'nrecip/%d' % len(recips)] + ['recip/' + k for k in kinds],
+                               'nrecip/%d' % len(recips)] + ['recip/' + k for k in kinds] + (['exported-before-signing'] if spec.get('peek') and spec['signers'] else []),
              {'dir': 'fwd', 'cipher': cipher, 'recipients': kinds, 'comp': spec['comp'], 'body_len': len(body), 'fmt': spec['fmt'],
               'signers': spec['signers'], 'armored': case['armored']})
     try:
@@ -255,7 +255,8 @@ def matrix(arg):
                 i += 1
                 if i % nparts != part:
                     continue
-                case = {'dir': d, 'msg': {'body': (b'covering matrix body %d ' % i * 3).hex(), 'fmt': 'b', 'sensitive': False, 'comp': i % 4, 'signers': []},
+                case = {'dir': d, 'msg': {'body': (b'covering matrix body %d ' % i * 3).hex(), 'fmt': 'b', 'sensitive': False, 'comp': i % 4,
+                                        'signers': ['ed25519-1'] if i % 3 == 0 else [], 'peek': i % 6 == 0},
                         'cipher': cipher, 'recips': [r], 'armored': bool(i % 2), 'supplied': bool(i % 3 == 0),
                         'bwd': {'container': 18 if i % 5 else 9, 'esk': bool(i % 2), 'skc': i, 's2k': 'iterated' if i % 3 else 'salted', 'count': 16 + i % 50,
                                 'hdr': ['new', 'old', 'partial', 'new5'][i % 4], 'fname': ['', 'f.txt', 'ünï.txt'][i % 3], 't': 1234567890}}
